@@ -30,8 +30,11 @@ OpOf(r) == [op |-> r.op, h |-> r.h, nh |-> r.nh, a |-> r.a, scr |-> r.scr, d |->
 
 CanStep(t) == TaskCanStepW(t, FALSE)
 \* why an idle loop could go on although the real one does not: names the guard (and so the property)
+\* a sibling under the same parent died of a failure (a broadcast that does not reach `a` then means the failure spread)
+SibFailed(a) == \E p \in Actor : \E i, j \in 1..Len(act[p].kids) :
+                   act[p].kids[i].a = a /\ act[p].kids[j].a # a /\ act[act[p].kids[j].a].pc = "failed"
 IdleReason(prefix, a) ==
-  IF act[a].mq # <<>> THEN prefix \o "deq." \o Head(act[a].mq).src
+  IF act[a].mq # <<>> THEN prefix \o "deq." \o Head(act[a].mq).src \o (IF Head(act[a].mq).src = "parent" /\ SibFailed(a) THEN ".sibfail" ELSE "")
   ELSE IF act[a].stream /\ (act[a].sq.ready > 0 \/ act[a].sq.ended) /\ ChanOpen(a) THEN prefix \o "stream"
   ELSE IF act[a].stream THEN prefix \o "closed.stream"
   ELSE IF \E b \in Actor : a \in act[b].subs THEN prefix \o "closed.subscribed"       \* a broker subscription is all that is left
@@ -66,19 +69,28 @@ T_Block == /\ IsEvent("block")
                  ELSE G("blk.loop", FALSE)
               /\ cur' = None /\ yl' = FALSE /\ UNCHANGED sys
 
+\* the loop is about to run (or is inside) its final callbacks: leaving now skips / cuts short stopped()
+Leaving(t) == \/ act[t].pc \in {"stopping", "finishing"}
+              \/ act[t].pc = "dequeued" /\ act[t].curp.k = "stop"
+              \/ act[t].pc = "idle" /\ act[t].mq # <<>> /\ Head(act[t].mq).k = "stop"
 T_Exit == /\ IsEvent("exit")
           /\ LET t == E.task IN
-             /\ G("exit.cur", cur = t /\ ~yl)
              /\ IF t \in Client
-                THEN G("exit.client." \o cli[t].op, cli[t].stage = "idle" /\ E.how = "ready")
+                THEN /\ G("exit.cur", cur = t /\ ~yl)
+                     /\ G("exit.client." \o cli[t].op, cli[t].stage = "idle" /\ E.how = "ready")
                 ELSE IF t \in DOMAIN tmr
-                THEN G(IF act[tmr[t].a].rtaken > 0 /\ tmr[t].inc = act[tmr[t].a].inc THEN "exit.timer.afterrestart"
-                       ELSE IF ~Terminated(tmr[t].a) /\ LiveH(tmr[t].a, StrongKinds) THEN "exit.timer.alive" ELSE "exit.timer",
-                       tmr[t].st = "ended" /\ E.how = "ready")
-                ELSE /\ G(IF t \in Actor /\ act[t].pc = "idle" /\ act[t].mq = <<>> /\ ~ChanOpen(t) THEN "exit.loop.closed"      \* left without stopped() after the last drop
-                          ELSE IF t \in Actor /\ act[t].pc \in {"stopping", "finishing"} THEN (IF act[t].stream THEN "exit.loop.callback.stream" ELSE "exit.loop.callback")
+                THEN /\ G("exit.cur", cur = t /\ ~yl)
+                     /\ G(IF act[tmr[t].a].rtaken > 0 /\ tmr[t].inc = act[tmr[t].a].inc THEN "exit.timer.afterrestart"
+                          ELSE IF ~Terminated(tmr[t].a) /\ LiveH(tmr[t].a, StrongKinds) THEN "exit.timer.alive" ELSE "exit.timer",
+                          tmr[t].st = "ended" /\ E.how = "ready")
+                ELSE \* (the state of the loop is judged first: it names what was skipped; then whose turn it was)
+                     /\ G(IF t \in Actor /\ act[t].pc = "idle" /\ act[t].mq = <<>> /\ ~ChanOpen(t) THEN "exit.loop.closed"      \* left without stopped() after the last drop
+                          ELSE IF t \in Actor /\ Leaving(t)
+                          THEN (IF act[t].stream THEN "exit.loop.callback.stream"
+                                ELSE IF act[t].jh # "none" THEN "exit.loop.callback.owning" ELSE "exit.loop.callback")
                           ELSE "exit.loop", t \in Actor /\ act[t].pc \in {"done", "failed"})
                      /\ G("exit.how", (E.how = "panic") <=> (act[t].why = "panic"))
+                     /\ G("exit.cur", cur = t /\ ~yl)
              /\ cur' = None /\ yl' = FALSE /\ UNCHANGED sys
 
 T_Yield == /\ IsEvent("yield")
@@ -90,11 +102,15 @@ T_Yield == /\ IsEvent("yield")
               ELSE /\ G("y.op", cur = t /\ yl)
                    /\ UNCHANGED vars
 
+\* an actor with a handler timeout is inside stopped(): a clock mismatch now points at a deadline armed for the callback
+SUT == {a \in Actor : act[a].pc \in {"stopping", "finishing"} /\ act[a].tmo >= 0}
+StopCtx == IF \E a \in SUT : act[a].jh # "none" THEN ".stopping.owning" ELSE IF SUT # {} THEN ".stopping" ELSE ""
 T_Advance == /\ IsEvent("advance")
              /\ G("adv.free", cur = None)
-             /\ G(IF \E i \in DOMAIN tmr : act[tmr[i].a].pc = "failed" THEN "adv.pending.failed" ELSE "adv.pending", Pending # {})
+             /\ G(IF \E i \in DOMAIN tmr : act[tmr[i].a].pc = "failed" THEN "adv.pending.failed"
+                  ELSE "adv.pending" \o StopCtx, Pending # {})
              /\ Advance
-             /\ G("adv.vt", now' = E.vt)
+             /\ G("adv.vt" \o StopCtx, now' = E.vt)
              /\ UNCHANGED <<cur, yl>>
 
 T_Cancel == /\ IsEvent("cancel")
